@@ -383,15 +383,31 @@ class spec_class:
         # Check if any collection attributes' singular forms overlap with
         # another attribute, and if so, attempt to work around it.
         renamed_inherited = []
+        item_names = {}  # singular names already taken by (earlier) collections
         for attr, attr_spec in list(metadata.attrs.items()):
-            if attr_spec.is_collection and attr_spec.item_name in metadata.attrs:
-                if f"{attr}_item" not in metadata.attrs:
+            if not attr_spec.is_collection:
+                continue
+            if attr_spec.item_name in metadata.attrs or attr_spec.item_name in item_names:
+                if (
+                    f"{attr}_item" not in metadata.attrs
+                    and f"{attr}_item" not in item_names
+                ):
                     if attr_spec.owner is not spec_cls:
                         # The specification is shared with the parent class, which
                         # must keep its own helper names; work on a copy, and
                         # (below) give this class element helpers under the new name.
+                        other = metadata.attrs.get(attr_spec.item_name)
                         attr_spec = metadata.attrs[attr] = _copy_attr_spec(attr_spec)
                         renamed_inherited.append(attr_spec)
+                        if (
+                            other is not None
+                            and other.owner is not spec_cls
+                            and other.name not in respecified_inherited
+                        ):
+                            # The element helpers this class inherits under the
+                            # old name must not shadow the scalar helpers of the
+                            # (also inherited) attribute of that name.
+                            respecified_inherited.append(other.name)
                     attr_spec.item_name = f"{attr}_item"
                     # The item preparer was looked up under the colliding name
                     # (where it finds the other attribute's preparer, if any).
@@ -404,6 +420,7 @@ class spec_class:
                         "overlaps with an existing attribute, and so does the fallback of "
                         f"'{attr}_item'. Please rename the attribute(s) to avoid this collision."
                     )
+            item_names[attr_spec.item_name] = attr
 
         # Update __annotations__ attribute to be consistent with spec_class
         # typings (unless already defined on the class contrarily)
